@@ -96,8 +96,9 @@ class Report:
     def finish(self):
         # instance floors: a rule that matched fewer instances than confirmed by hand is broken
         for rid, minimum in self.floors:
-            got = self.ok_count.get(rid, 0) + sum(1 for b in self.bad if b["rule"] == rid)
-            if got < minimum:
+            nbad = sum(1 for b in self.bad if b["rule"] == rid)
+            got = self.ok_count.get(rid, 0) + nbad
+            if got < minimum and not nbad:      # a rule that reports a violation did not pass vacuously (rules may stop at their first finding)
                 self.errors.append(
                     f"rule {rid}: only {got} instance(s) analysed, floor is {minimum} (rule would pass vacuously)")
         known = self._known()
